@@ -254,6 +254,7 @@ package mux
 //
 // The deferred closure of serveContext: recovers and hands the value to the RecoverFunc exactly once.
 //@ fn Router.serveContext$1
+//@   callsonly [C07,C16] mux.RecoverFunc
 //@   requires r != nil && r.recoverFunc != nil && w != nil
 //@   requires panicking() ==> panicval() != nil
 //@   ensures [C16] recovered: !panicking()
@@ -538,6 +539,7 @@ package mux
 //@ pred noParams(c *types.Context) = len(c.params) == 0 && (forall x string :: !in(x, c.params))
 //
 //@ fn Group.ServeHTTP$1
+//@   callsonly [C07,C16] mux.RecoverFunc
 //@   requires g != nil && g.recoverFunc != nil && w != nil
 //@   requires panicking() ==> panicval() != nil
 //@   ensures [C16] recovered: !panicking()
@@ -612,6 +614,7 @@ package mux
 //@   ensures [C13] added-last: len(g.routers) == old(len(g.routers)) + 1 && g.routers[old(len(g.routers))] == r &&
 //@        (forall k int :: 0 <= k && k < old(len(g.routers)) ==> g.routers[k] == old(g.routers[k]))
 //@   ensures [C13] matcher: r.matcher != nil && (matcher != nil ==> r.matcher == matcher)
+//@   ensures [C13] nil-means-any: matcher == nil ==> typeis(r.matcher, "MatcherFunc") && unbox(r.matcher, "MatcherFunc") == funcval("mux.anyRouter")
 //
 //@ fn Group.New
 //@   maypanic
@@ -673,6 +676,8 @@ package mux
 //@   ensures [C10] sets: o.urlDomain == prefix
 //@ fn WithCORS$1
 //@   requires o != nil
+//@   ensures [C11,C12] replaces: o.cors != nil && fresh(o.cors) && o.cors.Origins == origin && o.cors.AllowHeaders == allowHeaders && o.cors.ExposedHeaders == exposedHeaders &&
+//@        o.cors.MaxAge == maxAge && o.cors.AllowCredentials == allowCredentials && !o.cors.anyOrigins && !o.cors.anyHeaders && !o.cors.deny
 //@ fn options.sanitize
 //@   requires o != nil
 //@ fn buildOption
